@@ -37,6 +37,7 @@ import (
 	"google.golang.org/protobuf/proto"
 	"google.golang.org/protobuf/reflect/protoregistry"
 	"google.golang.org/protobuf/types/known/emptypb"
+	"verif/harness/common"
 )
 
 type Area struct{}
@@ -74,6 +75,26 @@ func (Area) Gen(r *rand.Rand, tier string, emit func(string)) {
 	// a well-formed ZERO timeout is a deadline that has already passed, not "no timeout"
 	for _, e := range entries {
 		emit(fmt.Sprintf("dl %s %s 0", e, shapes[r.Intn(len(shapes))]))
+	}
+	// RAW grpc-timeout values (well-formed, padded with spaces/tabs, signed, split, wrong-case unit, no unit) through the
+	// carriages that do NOT go through the same parser: `_metadata[grpc-timeout]` query entry of a WebSocket upgrade (no
+	// trimming: a padded value is malformed and must be ignored), upgrade-request header, HTTP header, gRPC-Web header
+	// (net/http trims optional white space around header values, so there the trimmed value decides). The target answers
+	// at once; what is observed is the deadline it was GIVEN (added after seeded change C12-m10: query values trimmed).
+	rawVals := []string{"400m", " 400m", "400m ", "  400m  ", "\t400m", "400m\t", "+400m", "-400m", "4 00m", "400 m", "400M", "400", "m", "1S", " 1S", "1S ", "00000400m", "000000400m", "1H"}
+	for _, c := range []string{"wsq", "wsh", "httph", "grpcwebh"} {
+		for _, v := range rawVals {
+			emit("raw " + c + " " + common.HexS(v))
+		}
+	}
+	nraw := 12
+	if tier == "thorough" {
+		nraw = 200
+	}
+	for i := 0; i < nraw; i++ {
+		pads := []string{"", " ", "  ", "\t", "+", "-"}
+		v := common.Pick(r, pads) + fmt.Sprintf("%d", 200+r.Intn(800)) + common.Pick(r, []string{"m", "m", "m", "M", "S", "u", ""}) + common.Pick(r, pads[:4])
+		emit("raw " + common.Pick(r, []string{"wsq", "wsh", "httph", "grpcwebh"}) + " " + common.HexS(v))
 	}
 	if tier == "thorough" {
 		for i := 0; i < 60; i++ {
@@ -129,6 +150,9 @@ func (s *tstream) Recv(ctx context.Context, m proto.Message) error {
 	if s.t.shape == "midstream" && n == 1 {
 		return nil
 	}
+	if s.t.shape == "quick" {
+		return io.EOF // the target ends the call at once with OK: only the deadline it was GIVEN is observed
+	}
 	<-ctx.Done()
 	return status.FromContextError(ctx.Err()).Err()
 }
@@ -182,6 +206,9 @@ type obs struct {
 
 func (Area) Exec(input string) string {
 	f := strings.Fields(input)
+	if len(f) == 3 && f[0] == "raw" {
+		return execRaw(f[1], f[2])
+	}
 	if len(f) != 4 || f[0] != "dl" {
 		return "BADOP"
 	}
@@ -626,4 +653,64 @@ func runProxy(rt router, t *target, toMs int, limit time.Duration) obs {
 			return obs{el, "grpc" + status.Code(err).String()}
 		}
 	}
+}
+
+// execRaw: one call with the RAW grpc-timeout value `hx` carried the given way; the scripted target answers at once and
+// records the deadline of the context it was called with: `tdl=<ms after the start>` / `tdl=-1` (none) / `tdl=-2` (not called).
+func execRaw(carry, hx string) string {
+	raw := string(common.MustUnHex(hx))
+	t := &target{shape: "quick", deadlineMs: -2, closedMs: -1}
+	rt := router{t: t, desc: newDesc()}
+	limit := 3 * time.Second
+	switch carry {
+	case "wsq", "wsh":
+		srv := httptest.NewServer(webbridge.NewTranscodedWebSocketBridge(rt, webbridge.TranscodedWebSocketBridgeOpts{}))
+		defer srv.Close()
+		u := wsURL(srv.URL) + "/bidi"
+		h := http.Header{}
+		if carry == "wsq" {
+			q := url.Values{}
+			q.Set("_metadata[grpc-timeout]", raw)
+			u += "?" + q.Encode()
+		} else {
+			h["Grpc-Timeout"] = []string{raw}
+		}
+		t.start = time.Now()
+		c, _, err := websocket.DefaultDialer.Dial(u, h)
+		if err != nil {
+			return "tdl=-2 dialerr"
+		}
+		defer c.Close()
+		_ = c.SetReadDeadline(time.Now().Add(limit))
+		for {
+			if _, _, err := c.ReadMessage(); err != nil {
+				break
+			}
+		}
+	case "httph", "grpcwebh":
+		var h http.Handler = webbridge.NewTranscodedHTTPBridge(rt, webbridge.TranscodedHTTPBridgeOpts{})
+		reqLine, ctype, body := "POST /ss HTTP/1.1", "application/json", "{}"
+		if carry == "grpcwebh" {
+			h = webbridge.NewGRPCWebBridge(rt, webbridge.GRPCWebBridgeOpts{})
+			reqLine, ctype, body = "POST /t.S/Bidi HTTP/1.1", "application/grpc-web+proto", "\x00\x00\x00\x00\x00"
+		}
+		srv := httptest.NewServer(h)
+		defer srv.Close()
+		conn, err := net.Dial("tcp", strings.TrimPrefix(srv.URL, "http://"))
+		if err != nil {
+			return "tdl=-2 dialerr"
+		}
+		defer conn.Close()
+		t.start = time.Now()
+		// the header line is written verbatim (a Go client would refuse or rewrite some of these values)
+		fmt.Fprintf(conn, "%s\r\nHost: x\r\nContent-Type: %s\r\nGrpc-Timeout: %s\r\nContent-Length: %d\r\nConnection: close\r\n\r\n%s", reqLine, ctype, raw, len(body), body)
+		_ = conn.SetReadDeadline(time.Now().Add(limit))
+		_, _ = io.ReadAll(conn)
+	default:
+		return "BADOP"
+	}
+	time.Sleep(20 * time.Millisecond)
+	t.mu.Lock()
+	defer t.mu.Unlock()
+	return fmt.Sprintf("tdl=%d", t.deadlineMs)
 }
